@@ -254,7 +254,7 @@ func genFields(t *rapid.T, g refGen, prof Profile, op *Op, isNew, isEpic bool) {
 			if op.Title != nil && pct(t, 10, "f.title.same") {
 				op.Title = sp(it.Title)
 			}
-			if op.Body != nil && it.Body != "" && pct(t, 10, "f.body.same") {
+			if op.Body != nil && it.Body != "" && len(it.Body) < 60000 && pct(t, 10, "f.body.same") { // (an argument of more than 128 KiB cannot be passed)
 				op.Body = sp(it.Body)
 			}
 		}
